@@ -37,7 +37,7 @@ MANIFEST = dict(
     technique="Lean 4 proof (character-level case analysis with omega, mutual structural induction printer/parser, finite-state matcher invariant, "
               "list induction for scan/dedup) + differential correspondence",
 )
-PROP_FILES = ["HtmlVerif/Props/C13.lean", "HtmlVerif/Props/ConstsJson.lean"]
+PROP_FILES = ["HtmlVerif/Props/C13.lean", "HtmlVerif/Props/ConstsJson.lean", "HtmlVerif/Props/SrcNeutralise.lean"]
 
 OPEN = '<script type="application/json" data-html-dependency="">'
 CLOSE = "</script>"
@@ -536,6 +536,9 @@ def run(tier: str) -> int:
     for l, im in zip(lines2, impl2):
         ck.add(l, im, nontrivial=True, tag="extract_html")
 
+    import srctie_c08       # `str.replace` as stated in Py/PrimC08.lean (Props/SrcNeutralise.lean) against the interpreter
+    repl = srctie_c08.replace_lines(rng, 300 if tier == "quick" else 3000)
+    ck.src_lines += list(zip(repl, core.impl_many(repl)))
     ck.correspond(holds=True)
 
     # ---------------- 6. same markup as HTMLDocument puts in <head> (Python-side, both real)
